@@ -404,8 +404,14 @@ impl ::std::os::fd::IntoRawFd for File {
         match self {
             File::Real(f) => f.into_raw_fd(),
             File::Sim(s) => {
+                // hand the descriptor over without closing it, but do let go
+                // of the simulator (a forgotten Arc keeps the whole simulated
+                // world alive for the rest of the process)
                 let fd = s.fd;
-                ::std::mem::forget(s);
+                let s = ::std::mem::ManuallyDrop::new(s);
+                // SAFETY: `s` is never used nor dropped again; only its Arc
+                // field is moved out and dropped here.
+                unsafe { drop(::std::ptr::read(&s.sim)) };
                 fd
             }
         }
